@@ -251,5 +251,5 @@ fn hostile(c: &HostileCase) -> CaseResult {
 }
 
 pub fn register(r: &mut Run) {
-    r.subcheck("from_bytes_hostile", r.cases(30_000, 3_000_000), hostile_case, hostile);
+    r.subcheck("from_bytes_hostile", r.cases(30_000, 5_000_000), hostile_case, hostile);
 }
